@@ -160,6 +160,11 @@ func mapRunesToClusterIndices3(dir di.Direction, runes Range, glyphs []Glyph, bu
 	var mapping []glyphIndex
 	if cap(buf) >= runes.Count {
 		mapping = buf[:runes.Count]
+		// runes not covered by any glyph cluster must not keep
+		// the values of a previous run
+		for i := range mapping {
+			mapping[i] = 0
+		}
 	} else {
 		mapping = make([]glyphIndex, runes.Count)
 	}
